@@ -435,6 +435,55 @@ def regex_build_sites(F):
     return out
 
 
+def is_case_flag(x):
+    return x[0] == "field" and "ignore" in (x[2] or "") and "case" in (x[2] or "")
+
+
+def payload_selected_by_case_flag(F, adt, variant):
+    """For every function constructing `adt::variant` (outside derives): among its paths, the
+    payload built when a case-flag atom is true differs from the one built when it is false."""
+    n = 0
+    ok_all = True
+    for g in F.fn_list:
+        if g.derived:
+            continue
+        has = False
+        for bi, si, st in g.assigns():
+            r_ = st["r"]
+            if r_["k"] == "agg" and r_.get("adt") == adt and r_.get("variant") == variant:
+                has = True
+        if not has:
+            continue
+        n += 1
+        by_flag = {0: set(), 1: set()}
+        for p in Sym(g, copies=False, max_paths=50000).paths():
+            payloads = []
+            for e in p.events:
+                pass
+            # payload values: scan every aggregate value that appears in set/write/call events
+            vals = []
+            for e in p.events:
+                if e[0] in ("set", "init"):
+                    vals.append(e[3])
+                elif e[0] in ("write", "lwrite"):
+                    vals.append(e[2])
+                elif e[0] == "call":
+                    vals.extend(e[2])
+            pl = None
+            for v in vals:
+                for x in walk(v):
+                    if x[0] == "agg" and x[1] == adt and x[2] == variant and x[3]:
+                        pl = x[3][0][1]
+            if pl is None:
+                continue
+            for a, v in p.conds:
+                if mentions(a, is_case_flag) and v in (0, 1):
+                    by_flag[v].add(pl)
+        if not by_flag[0] or not by_flag[1] or by_flag[0] == by_flag[1]:
+            ok_all = False
+    return ok_all, n
+
+
 def r01_11(ctx):
     F = ctx.facts
 
@@ -459,9 +508,21 @@ def r01_11(ctx):
                 # i.e. the pattern expression depends on a case flag
                 pv = Prov(f, copies=True)
                 pat = pv.operand(t["args"][0])
-                dep = mentions(pat, lambda x: x[0] == "field" and "ignore" in (x[2] or "") and "case" in (x[2] or ""))
+                dep = mentions(pat, is_case_flag)
+                how = "pattern depends on the case flag" if dep else ""
+                if not dep:
+                    # the pattern is the payload of an enum variant: follow it to every site that
+                    # constructs that variant and require the payload there to be selected by a
+                    # case flag (control dependence, decided on the constructing function's paths)
+                    vs = [x for x in walk(pat) if x[0] == "variant"]
+                    adts = [x[3] for x in walk(pat) if x[0] == "field" and x[3]]
+                    if vs and adts:
+                        variant, adt = vs[0][2], adts[0]
+                        sites_ok, n_sites = payload_selected_by_case_flag(F, adt, variant)
+                        dep = n_sites > 0 and sites_ok
+                        how = "payload of %s::%s is chosen under a case flag at its %d construction site(s)" % (adt.rsplit("::", 1)[1], variant, n_sites)
                 r.ob(key, dep, f.loc(span_line(t["s"])),
-                     "Regex::new(%s): %s" % (show(pat, f), "pattern depends on the case flag" if dep else "built case-sensitively whatever the configuration (request header values are lower-cased under ignore_header_case)"))
+                     "Regex::new(%s): %s" % (show(pat, f), how if dep else "built case-sensitively whatever the configuration (request header values are lower-cased under ignore_header_case)"))
         # rule side: HeaderMatcher::insert must make the stored regex depend on the case flag when
         # match_value cannot see the configuration
         r.ob("regex-build:sites", len(sites) >= 2, "", "%d regex construction sites" % len(sites))
